@@ -347,6 +347,48 @@ def monitorKnownAnswers (script : List Cmd) (iters : List Iter) (d : Nat) : Opti
           some s!"answer-sent-although-listed-as-known-answer rec={hexOfBytes r.name}/{r.ty} t={p.t}"
         else none
 
+/-- `ok_C06`, completeness for address questions: in a calm history (no unregister, shutdown,
+    interface change, conflict) a host name whose address record the daemon has announced on an
+    interface is answered for - every A / AAAA / ANY question on that name in a query gets that
+    record in the answer section, unless the query lists it as a known answer with more than half
+    its TTL - whatever else the same query asks.  Only iterations that read exactly one datagram
+    and made no API call are judged. -/
+def monitorAddressAnswers (script : List Cmd) (iters : List Iter) (d : Nat) : Option String :=
+  if !plainNames script then none else
+  let calm := !(script.any fun c => match c with
+      | .unregister .. | .shutdown .. | .ifaces .. | .now _ => true
+      | .other ("enable" :: _) | .other ("disable" :: _) => true
+      | _ => false) &&
+    !(iters.any fun it => it.d == d && it.evs.any fun e => e.2.headD "" == "namechange")
+  if !calm then none else
+  let pk := sentBy iters d
+  let rxs := readBy iters d
+  -- a response read by the daemon may be a conflict: not calm
+  if rxs.any (·.resp) then none else
+  -- registered once per name: re-registrations change the address sets
+  let calls := processedCalls script iters cmdDaemonR
+  let regs := registers calls d
+  if regs.any (fun a => regs.any fun b => a.1 != b.1 && a.2.1 == b.2.1) then none else
+  rxs.findSome? fun x =>
+    let alone := (rxs.filter fun y => y.k == x.k).length == 1
+    let quietIter := (iters.toArray[x.k]?.map fun it => it.calls.isEmpty &&
+      !(it.evs.any fun e => e.2.headD "" == "announce")).getD false
+    if !alone || !quietIter then none else
+    -- address records announced on this interface and family before (unsolicited, answer section)
+    let held := (pk.filter fun p => p.k < x.k && p.resp && p.dest == "m" && p.ifi == x.ifi && p.v4 == x.v4 &&
+        (iters.toArray[p.k]?.map fun it => it.rx.isEmpty).getD false).flatMap fun p =>
+      p.m.answers.filter fun r => (r.ty == 1 || r.ty == 28) && r.ttl > 0
+    let out := pk.filter fun p => p.k == x.k && p.resp
+    x.m.questions.findSome? fun q =>
+      held.findSome? fun h =>
+        if !(lower h.name == lower q.name && (q.ty == h.ty || q.ty == 255)) then none else
+        let listed := x.m.answers.any fun ka =>
+          lower ka.name == lower h.name && ka.ty == h.ty && ka.rdata == h.rdata && decide (2 * ka.ttl > h.ttl)
+        let answered := out.any fun p => (p.m.answers ++ p.m.additionals).any fun r =>
+          lower r.name == lower h.name && r.ty == h.ty && r.rdata == h.rdata && r.ttl > 0
+        if listed || answered then none
+        else some s!"address-question-not-answered host={hexOfBytes q.name} qtype={q.ty} t={x.t}"
+
 /-! ### C06 -/
 
 def ifaceTable (script : List Cmd) (d : Nat) : Option (List Iface) :=
